@@ -616,8 +616,8 @@ def redis_cluster_gap(ctx: Ctx, rng, idx: int) -> None:
         def __getattr__(self, name):
             return getattr(__import__("time"), name)
 
-    real_time_mod = R.time
-    if long_gap:
+    real_time_mod = getattr(R, "time", None)   # (a tree whose module no longer imports time has no back-off sleep to virtualise)
+    if long_gap and real_time_mod is not None:
         R.time = VTime()
     try:
         tb.start()
@@ -636,7 +636,8 @@ def redis_cluster_gap(ctx: Ctx, rng, idx: int) -> None:
         for t in (ta, tb, tc):
             t.join(60)
     finally:
-        R.time = real_time_mod
+        if real_time_mod is not None:
+            R.time = real_time_mod
     ctx.count("cluster_gap_scenarios")
     case = {"flavour": "redis_cluster", "cluster_gap": True, "long_gap_on_the_readers_clock": long_gap, "index": idx, "seed": ctx.seed}
     ctx.case(case, True)
